@@ -56,10 +56,16 @@ def install(src, dst):
     os.replace(tmp, dst)
 
 
-def build(profile="verif", features=None, quiet=True):
-    """Rebuild the harness (and with it the library from /repo's working tree, hooks on)."""
+def build(profile="verif", features=None, bins=None):
+    """Rebuild harness binaries (and with them the library from /repo's working tree, hooks on).
+    bins: list of property ids (None = all). Returns ({pid: path}, log, seconds) or (None, log, s)."""
     sync_lock()
     cmd = ["cargo", "build", "--offline", "--profile", profile]
+    if bins is None:
+        cmd += ["--bins"]
+    else:
+        for b in bins:
+            cmd += ["--bin", "ppv-" + b.lower()]
     if features:
         cmd += ["--features", features]
     t0 = time.time()
@@ -68,12 +74,15 @@ def build(profile="verif", features=None, quiet=True):
     if p.returncode != 0:
         return None, p.stdout[-4000:], time.time() - t0
     d = "release" if profile == "release" else profile
-    binp = os.path.join(TARGET, d, "ppv")
-    # keep one copy per feature set: cargo reuses the same output path for every feature set
-    dst = os.path.join(TARGET, d, "ppv-" + (features.replace(",", "-") if features else "default"))
-    install(binp, dst)
-    binp = dst
-    return binp, "", time.time() - t0
+    out = {}
+    names = bins if bins is not None else sorted(PROPS)
+    for b in names:
+        binp = os.path.join(TARGET, d, "ppv-" + b.lower())
+        # keep one copy per feature set: cargo reuses the same output path for every feature set
+        dst = binp + "." + (features.replace(",", "-") if features else "default")
+        install(binp, dst)
+        out[b] = dst
+    return out, "", time.time() - t0
 
 
 def load_known():
@@ -210,6 +219,41 @@ def merge(procs):
     return tot
 
 
+def sweep(pid, tot, bins, ids, tier, seed, nshards, scale, wd, watchdog, t0):
+    """C16's panic sweep: every other driver at reduced scale, events discarded, only panics transferred."""
+    per = max(1, nshards // 4)
+    for q in ids:
+        procs = []
+        for s_ in range(per):
+            out = os.path.join(wd, f"sweep-{q}-{s_}.json")
+            errf = open(os.path.join(wd, f"sweep-{q}-{s_}.err"), "w")
+            p = subprocess.Popen([bins[q], q, "--tier", tier, "--seed", str(seed ^ 0x16), "--shard", str(s_), "--nshards", str(per),
+                                  "--scale", str(scale * 0.1), "--out", out], stdout=subprocess.DEVNULL, stderr=errf)
+            procs.append((s_, [p], out, "", errf))
+        problems = wait_shards(procs, watchdog)
+        if problems:
+            inconclusive(pid, f"sweep-driver-{q}-failed:" + ";".join(problems)[:200], tier, seed, t0)
+        ops = 0
+        for s_, ps, out, hs, errf in procs:
+            d = json.load(open(out))
+            ops += d["evaluations"]
+            for v in d["violations"]:
+                if "panic" in v:
+                    sig = f"panic in {q} workload: {v.get('sig', '?')}"
+                    tot["violation_sigs"][sig] = tot["violation_sigs"].get(sig, 0) + 1
+                    tot["n_violations"] += 1
+                    tot["panics"] += 1
+                    v = dict(v)
+                    v["sig"] = sig
+                    v["_shard"] = 0
+                    tot["violations"].append(v)
+        tot["counters"]["sweep_ops"] = tot["counters"].get("sweep_ops", 0) + ops
+        tot["counters"]["sweep_ops:" + q] = ops
+        tot["evaluations"] += ops
+    if "sweep_ops" not in tot["floors"]:
+        tot["floors"].append("sweep_ops")
+
+
 def collapse(counters, limit=40):
     """group very wide counter families (e.g. one key per field position) for the evidence file"""
     fam = {}
@@ -249,17 +293,18 @@ def check(pid, tier, nshards, scale):
         configs = cfg.get("configs_thorough", configs)
     builds = []
     build_s = 0.0
+    sweep_ids = [q for q in sorted(PROPS) if q != pid] if cfg.get("sweep") else []
     for c in configs:
-        binp, log, dt = build(c["profile"], c.get("features"))
+        bins, log, dt = build(c["profile"], c.get("features"), [pid] + (sweep_ids if not c.get("features") else []))
         build_s += dt
-        if binp is None:
+        if bins is None:
             print(log)
             inconclusive(pid, "harness-or-library-build-failed", tier, seed, t0)
-        builds.append((c, binp))
+        builds.append((c, bins[pid], bins))
 
     watchdog = cfg.get("watchdog_s", {"quick": 900, "thorough": 4 * 3600})[tier]
     totals = []
-    for c, binp in builds:
+    for c, binp, allbins in builds:
         procs = run_shards(pid, cfg, binp, tier, seed, nshards, scale, wd, label=c.get("label", ""))
         problems = wait_shards(procs, watchdog)
         if problems:
@@ -271,6 +316,8 @@ def check(pid, tier, nshards, scale):
         tot = merge(procs)
         tot["config"] = c
         totals.append(tot)
+        if cfg.get("sweep") and not c.get("features"):
+            sweep(pid, tot, allbins, sweep_ids, tier, seed, nshards, scale, wd, watchdog, t0)
 
     # ---- combine configurations
     tot = totals[0]
@@ -393,11 +440,12 @@ def replay(path):
     os.makedirs(wd, exist_ok=True)
     found = 0
     for c in configs:
-        binp, log, dt = build(c["profile"], c.get("features"))
-        if binp is None:
+        bins, log, dt = build(c["profile"], c.get("features"), [pid])
+        if bins is None:
             print(log)
             print("INCONCLUSIVE build failed")
             sys.exit(2)
+        binp = bins[pid]
         procs = run_shards(pid, cfg, binp, r["tier"], r["seed"], r["nshards"], r["scale"], wd,
                            only_shard=r["shard"], label=c.get("label", ""))
         problems = wait_shards(procs, 4 * 3600)
@@ -425,8 +473,8 @@ def main():
         sys.exit(3)
     if a[0] == "build":
         ok = True
-        for prof, feat in (("verif", None), ("verif", "borsh")):
-            b, log, dt = build(prof, feat)
+        for prof, feat, bins in (("verif", None, None), ("verif", "borsh", ["C18"])):
+            b, log, dt = build(prof, feat, bins)
             print(f"build profile={prof} features={feat}: {'ok' if b else 'FAILED'} {dt:.1f}s")
             if not b:
                 print(log)
